@@ -1,5 +1,5 @@
 SPECIFICATION Spec
-CONSTANTS LossPerHit = 4  ChargeFree = TRUE  OpenFace = "none"  Transits = 4
+CONSTANTS LossPerHit = 4  ChargeFree = TRUE  OpenFace = "none"  Transits = 4  StretchApplied = TRUE
 INVARIANT TypeOK
 INVARIANT QuietAbsorbed
 INVARIANT DiffClause
